@@ -184,10 +184,26 @@ void BW_MidiSequencer::MidiTrackRow::sortEvents(bool *noteStates)
     EvtArr controllers;
     EvtArr anyOther;
 
+    // Notes with a Note-On earlier on this row, and notes whose earlier sounding got its Note-Off on this row
+    std::set<size_t> onThisRow, shutDown;
+
     for(size_t i = 0; i < events.size(); i++)
     {
         if(events[i].type == MidiEvent::T_NOTEOFF)
         {
+            const size_t note_i = static_cast<size_t>(events[i].channel * 255) + (events[i].data[0] & 0x7F);
+            /*
+             * If Note-Off and it's Note-On is on the same row - keep this damned note off behind it!
+             * (when the note sounds since an earlier row, the first Note-Off shuts that down and goes first)
+             */
+            if(noteStates && onThisRow.count(note_i) && (!noteStates[note_i] || shutDown.count(note_i)))
+            {
+                if(anyOther.capacity() == 0)
+                    anyOther.reserve(events.size());
+                anyOther.push_back(events[i]);
+                continue;
+            }
+            shutDown.insert(note_i);
             if(noteOffs.capacity() == 0)
                 noteOffs.reserve(events.size());
             noteOffs.push_back(events[i]);
@@ -225,67 +241,30 @@ void BW_MidiSequencer::MidiTrackRow::sortEvents(bool *noteStates)
         }
         else
         {
+            if(events[i].type == MidiEvent::T_NOTEON)
+                onThisRow.insert(static_cast<size_t>(events[i].channel * 255) + (events[i].data[0] & 0x7F));
             if(anyOther.capacity() == 0)
                 anyOther.reserve(events.size());
             anyOther.push_back(events[i]);
         }
     }
 
-    /*
-     * If Note-Off and it's Note-On is on the same row - move this damned note off down!
-     */
+    // Track the state of every note in the order the events are going to be played
     if(noteStates)
     {
-        std::set<size_t> markAsOn;
-        for(size_t i = 0; i < anyOther.size(); i++)
-        {
-            const MidiEvent e = anyOther[i];
-            if(e.type == MidiEvent::T_NOTEON)
-            {
-                const size_t note_i = static_cast<size_t>(e.channel * 255) + (e.data[0] & 0x7F);
-                //Check, was previously note is on or off
-                bool wasOn = noteStates[note_i];
-                markAsOn.insert(note_i);
-                // Detect zero-length notes are following previously pressed note
-                int noteOffsOnSameNote = 0;
-                for(EvtArr::iterator j = noteOffs.begin(); j != noteOffs.end();)
-                {
-                    // If note was off, and note-off on same row with note-on - move it down!
-                    if(
-                        ((*j).channel == e.channel) &&
-                        ((*j).data[0] == e.data[0])
-                    )
-                    {
-                        // If note is already off OR more than one note-off on same row and same note
-                        if(!wasOn || (noteOffsOnSameNote != 0))
-                        {
-                            anyOther.push_back(*j);
-                            j = noteOffs.erase(j);
-                            markAsOn.erase(note_i);
-                            continue;
-                        }
-                        else
-                        {
-                            // When same row has many note-offs on same row
-                            // that means a zero-length note follows previous note
-                            // it must be shuted down
-                            noteOffsOnSameNote++;
-                        }
-                    }
-                    j++;
-                }
-            }
-        }
-
-        // Mark other notes as released
         for(EvtArr::iterator j = noteOffs.begin(); j != noteOffs.end(); j++)
         {
             size_t note_i = static_cast<size_t>(j->channel * 255) + (j->data[0] & 0x7F);
             noteStates[note_i] = false;
         }
 
-        for(std::set<size_t>::iterator j = markAsOn.begin(); j != markAsOn.end(); j++)
-            noteStates[*j] = true;
+        for(EvtArr::iterator j = anyOther.begin(); j != anyOther.end(); j++)
+        {
+            if(j->type != MidiEvent::T_NOTEON && j->type != MidiEvent::T_NOTEOFF)
+                continue;
+            size_t note_i = static_cast<size_t>(j->channel * 255) + (j->data[0] & 0x7F);
+            noteStates[note_i] = (j->type == MidiEvent::T_NOTEON);
+        }
     }
     /***********************************************************************************/
 
